@@ -222,6 +222,20 @@ func c04Random(r *ev.Rand) *hx.Script {
 			s.Ops = append(s.Ops, hx.Op{K: "resize", Path: t, Dims: []uint64{nn}})
 		}
 	}
+	// one history in three is split over two sessions: Close, OpenForWrite, the datasets
+	// created so far opened again (groups have no reopen call: later operations on them are
+	// skipped by the interpreter), and the rest of the history runs in the second session
+	if r.Chance(1, 3) && len(s.Ops) > 2 {
+		pos := r.Range(2, len(s.Ops))
+		ops := append([]hx.Op(nil), s.Ops[:pos]...)
+		ops = append(ops, hx.Op{K: "close"}, hx.Op{K: "reopen"})
+		for _, op := range s.Ops[:pos] {
+			if op.K == "create_ds" {
+				ops = append(ops, hx.Op{K: "opends", Path: op.Path})
+			}
+		}
+		s.Ops = append(ops, s.Ops[pos:]...)
+	}
 	return s
 }
 
@@ -291,6 +305,11 @@ func c04Run(c *ev.Ctx) {
 	e.Hook = func(i int, op *hx.Op, phase string, res *hx.OpRes) {
 		if phase == "pre" {
 			before, _ = os.ReadFile(full)
+			return
+		}
+		if op.K == "close" || op.K == "reopen" || op.K == "opends" {
+			// session bookkeeping (superblock, end-of-file truncation) is not an operation on an object
+			claim("/")
 			return
 		}
 		claim(op.Path) // blocks allocated during this call belong to its target
@@ -476,7 +495,7 @@ func c04VictimKind(s *hx.Script, owner string) string {
 var C04 = &ev.Property{
 	ID:    "C04",
 	Level: "exploration",
-	Rule: "histories over 2-6 live objects: (1) every order of the core set {create X, create Y, write X, write Y, attribute on X, attribute on Y, hard link to X, resize X} that respects create-before-use (2688 linear extensions: all in the thorough tier, 200 sampled in the quick tier), (2) random histories of 3-22 operations (create dataset/group, attribute bursts crossing into dense storage, delete attribute, rewrite, hard link, resize) on superblock 0/2/3. " +
+	Rule: "histories over 2-6 live objects: (1) every order of the core set {create X, create Y, write X, write Y, attribute on X, attribute on Y, hard link to X, resize X} that respects create-before-use (2688 linear extensions: all in the thorough tier, 200 sampled in the quick tier), (2) random histories of 3-22 operations (create dataset/group, attribute bursts crossing into dense storage, delete attribute, rewrite, hard link, resize, soft/external link objects) on superblock 0/2/3, one in three split over two sessions (Close, OpenForWrite, OpenDataset for every dataset, rest of the history). " +
 		"Each history is executed once under a byte-ownership monitor (file snapshot before/after every call, changed bytes attributed through the allocator's block list) and once per prefix length into a fresh file; the dump after prefix k restricted to the objects op_k does not target must equal the dump after prefix k-1. non-trivial: >=2 judged prefixes; distinct = (superblock, core/random, sequence of operation kinds with their targets).",
 	Assumptions: []string{
 		"an operation may change its target object, the parent group it links into and (hard link) the link target",
